@@ -33,6 +33,63 @@ def run(prog, chk):
     reuse_overrides_evaluated(prog, chk)
     own_attributes_outside_scope(prog, chk)
     pops_follow_pushes(prog, chk)
+    scan_continues_past_undefined(prog, chk)
+    from props import C18
+    C18.template_source(prog, chk)  # a <reuse> copies the element as written: what $k means inside the copy is decided at the reuse site, not at the definition
+
+
+def scan_continues_past_undefined(prog, chk):
+    """"an undefined $name is left verbatim" - and the rest of the value is still substituted: the scan of eval_vars
+    stops early only where the *text* ends (a search for `$`, `}` or the end of a name found nothing), never because a
+    variable is undefined.  Every Option test in the scanning loop whose two outcomes differ in whether the scan goes on
+    is the result of a str::find itself."""
+    b = prog.body("svgdx::expression::eval_vars")
+    chk.touch(b)
+    loops = sorted(b.loops.items(), key=lambda kv: -len(kv[1]))
+    if not loops:
+        chk.anchor_missing("A13.scan-continues", "eval_vars: scanning loop not found")
+        return
+    h, blocks = loops[0]
+    n = 0
+    bad = []
+    for x in sorted(blocks):
+        t = b.term(x)
+        if t["k"] != "switch":
+            continue
+        o = R.origin(b, t["op"], carriers={})
+        if not (o[0] == "rv" and o[1].get("k") == "discr" and str(o[1].get("ty", "")).startswith("std::option::Option<")):
+            continue
+        succs = list(dict.fromkeys(b.succ[x]))
+        if len(succs) != 2:
+            continue
+        goes_on = [h in b.reach([y], avoid=set()) and any(z in blocks for z in [y]) and h in (b.reach([y]) & (blocks | {h})) and _reaches_within(b, y, h, blocks) for y in succs]
+        if goes_on[0] == goes_on[1]:
+            continue
+        n += 1
+        src = R.origin(b, {"m": list(o[1]["place"])} if False else _place_op(o[1]["place"]), carriers={})
+        name = Callee(src[2]["fn"]).path.split("::")[-1] if src[0] == "call" and "fn" in src[2] else src[0]
+        if not (src[0] == "call" and "fn" in src[2] and name in ("find", "rfind", "strip_prefix", "strip_suffix", "split_once") and "str" in Callee(src[2]["fn"]).path):
+            bad.append((b.where(x, t.get("line")), name))
+    chk.floor("A13.scan-continues", n, 3, "Option test in eval_vars that decides whether the scan goes on")
+    chk.ob(not bad, "A13.scan-continues", "eval_vars", b.where(h), "the scan stops early only where a text search found nothing", f"eval_vars stops scanning on an Option that is not the result of a text search ({', '.join(f'{w}: {nm}' for w, nm in bad)}): an undefined variable ends the substitution, so defined references after it in the same value stay verbatim")
+
+
+def _place_op(pl):
+    return {"c": [pl[0], list(pl[1])]}
+
+
+def _reaches_within(b, start, header, blocks):
+    """can `header` be reached from `start` staying inside the loop?"""
+    seen, work = set(), [start]
+    while work:
+        x = work.pop()
+        if x == header:
+            return True
+        if x in seen or x not in blocks:
+            continue
+        seen.add(x)
+        work += list(b.succ[x])
+    return False
 
 
 def scope_pairing(prog, chk, rule):
